@@ -33,6 +33,10 @@ def jout(value):
     return list(value) if isinstance(value, (list, tuple)) else value
 
 
+# pairwise distinct under ==, several of them falsy (0 == False, so no booleans)
+ODD_ELEMENTS = [0, "", None, 0.5, "g", -1, "0", "None", 1.5, -2]   # JSON-safe, so replays keep them
+
+
 def parents_for(nmax, perm_upto):
     out = []
     for n in range(0, nmax + 1):
@@ -111,7 +115,11 @@ def run(ctx):
             continue
         # relabel: the property is about arbitrary distinct elements
         labels = {v: f"g{v}" for v in parent}
-        for names in (list(parent), [labels[v] for v in parent]):
+        # "every sequence of distinct elements": also elements that are falsy or None
+        # (pairwise distinct under ==), and integers from 0
+        odd = dict(zip(sorted(parent), ODD_ELEMENTS))
+        for names in (list(parent), [labels[v] for v in parent], [v - 1 for v in parent],
+                      [odd[v] for v in parent]):
             ren = dict(zip(parent, names))
             for mask, want in table.items():
                 want_named = [ren[v] for v in want]
